@@ -64,8 +64,16 @@ NEEDS = {
  "C09c": "add_flop_outputs=True with a per-flop initial_values dict that omits a flop instantiated before a listed one (>= 2 flops)",
  "C10c": "an and/nand gate whose fan-in list was connected in another order than its operand nodes were created, and a hash seed under which two equal fan-in sets iterate differently (10 of 32 seeds)",
  "C15c": "a constant node with a load that the writer emits before the constant's own line (16 of 32 hash seeds)",
- "C18c": "",
- "C17c": "",
+ "C18c": "at least two feedback nodes where the one first in set order does not already drive all loads of the others (14 of 32 hash seeds on the demo)",
+ "C17c": "two outputs sharing logic such that the minimal-cover filter drops a supergate that is not last in build order (list mutated while iterated); 4 of 10 hash seeds on the demo",
+ "C04d": "(helper: Circuit.endpoints via a one-pass _terminals) a primary input that is also an output, default endpoints, and either that input untied or it being the only shared endpoint",
+ "C05d": "(helper: Circuit.add with uid=True renaming) limit_fanin on a circuit that already contains <g>_limit_fanin_<i> helpers feeding <g>; wrong only for some pop orders",
+ "C06d": "(helper: Circuit.relabel rewritten with neighbour-keyed dicts) one parent net feeding two input pins of the same blackbox instance, then fill_blackbox",
+ "C09d": "(helper: Circuit.remove aborting at the first missing name) a flop type with >= 2 non-data pins and ignore_pins naming some but not all of them; which one depends on PYTHONHASHSEED",
+ "C10d": "(helper: Circuit.add redefinition as input/constant removes the node first) a circuit whose gates were inserted before their input/constant fan-ins",
+ "C11d": "(helper: utils.int_to_bin returning () for width 0) props.sensitivity on a functionally constant node with exactly one startpoint",
+ "C16d": "(helper: Circuit.remove cascading from a 'pin' recognised by name only) a dead ordinary gate whose name sits under a blackbox instance's prefix (ff0.q_n)",
+ "C18d": "",
  "C19c": "influence/avg_sensitivity with supergates=True and a peer failure in the middle (solver raises, pysat unimportable, approxmc missing or exit 1)",
  "C19": "tx.subcircuit asked for ALL nodes of a blackbox-free circuit (directly or through sensitization_transform / influence with an endpoint whose cone is the whole circuit), then any edit or the internal set_output",
  "C01": "two parity gates with >= 3 inputs sharing two operands that a hash order pairs in opposite order in the same chain stage (2 of 300 PYTHONHASHSEED values for a fixed circuit)",
@@ -95,6 +103,8 @@ def main():
         prop = sid[:3]
         if sid.endswith("b"):
             src2 = " (round 2: told which round-1 change not to repeat)"
+        elif sid.endswith("d"):
+            src2 = " (round 4: asked to change a shared low-level helper, not the function the property names)"
         elif sid.endswith("c"):
             src2 = " (round 3: asked for a change whose visibility depends on solver model choice / hash order / a failure path / a call history)"
         else:
